@@ -20,6 +20,7 @@ import (
 	"github.com/nspcc-dev/neo-go/pkg/core/block"
 	"github.com/nspcc-dev/neo-go/pkg/core/storage"
 	"github.com/nspcc-dev/neo-go/pkg/core/transaction"
+	"github.com/nspcc-dev/neo-go/pkg/crypto/hash"
 	"github.com/nspcc-dev/neo-go/pkg/crypto/keys"
 	"github.com/nspcc-dev/neo-go/pkg/io"
 	"github.com/nspcc-dev/neo-go/pkg/neotest"
@@ -45,16 +46,32 @@ type clusterCfg struct {
 	MaxSysFee  int64         // MaxBlockSystemFee (0 = default)
 	Extra      int           // committee members beyond the N validators; they run nodes too (watch-only until elected)
 	MaxTPB     time.Duration // MaxTimePerBlock (0 = off): empty proposals are postponed until a transaction arrives
+	SwitchTo   int           // ValidatorsHistory: the number of validators changes from N to SwitchTo (0 = constant) ...
+	SwitchAt   uint32        // ... at this height (a multiple of the committee size); the committee is all nodes
 	KeyLabel   string
 	WalletsDir string
 }
 
-func (c clusterCfg) F() int     { return (c.N - 1) / 3 }
-func (c clusterCfg) M() int     { return c.N - c.F() }
-func (c clusterCfg) Nodes() int { return c.N + c.Extra }
+// F is the number of silent validators every validator set of the run
+// tolerates (the smaller set decides when the count changes during the run).
+func (c clusterCfg) F() int {
+	n := c.N
+	if c.SwitchTo > 0 {
+		n = min(n, c.SwitchTo)
+	}
+	return (n - 1) / 3
+}
+
+// MaxVals is the size of the largest validator set of the run.
+func (c clusterCfg) MaxVals() int { return max(c.N, c.SwitchTo) }
+func (c clusterCfg) Nodes() int   { return c.MaxVals() + c.Extra }
 
 func (c clusterCfg) String() string {
-	return fmt.Sprintf("n=%d+%d srih=%v extpool=%v maxtx=%d maxsysfee=%d maxtpb=%s", c.N, c.Extra, c.SRIH, c.ExtPool, c.MaxTx, c.MaxSysFee, c.MaxTPB)
+	s := fmt.Sprintf("n=%d+%d srih=%v extpool=%v maxtx=%d maxsysfee=%d maxtpb=%s", c.N, c.Extra, c.SRIH, c.ExtPool, c.MaxTx, c.MaxSysFee, c.MaxTPB)
+	if c.SwitchTo > 0 {
+		s += fmt.Sprintf(" validators %d->%d at height %d", c.N, c.SwitchTo, c.SwitchAt)
+	}
+	return s
 }
 
 // blockEvent is one entry of the block event log: an AddBlock attempt made by
@@ -67,7 +84,13 @@ type blockEvent struct {
 	Err         string `json:"err,omitempty"`
 	ChainHeight uint32 `json:"chain_height_before"`
 	Phase       int    `json:"phase"`
-	hash        util.Uint256
+	// after a successful AddBlock: the validators the ledger now names for the
+	// next block, the address of their default multisignature account, and
+	// the block's NextConsensus
+	NextVals     int    `json:"next_validators,omitempty"`
+	LedgerNextNC string `json:"ledger_next_consensus,omitempty"`
+	BlockNextNC  string `json:"block_next_consensus,omitempty"`
+	hash         util.Uint256
 }
 
 // commitRec is a block a validator's consensus service assembled and handed
@@ -214,6 +237,10 @@ func protoCfg(c clusterCfg, ks []*keys.PrivateKey) func(*config.Blockchain) {
 			MemPoolSize:                 5000,
 			Hardforks:                   nil, // all stable hardforks from genesis
 		}
+		if c.SwitchTo > 0 {
+			b.ProtocolConfiguration.ValidatorsCount = 0
+			b.ProtocolConfiguration.ValidatorsHistory = map[uint32]uint32{0: uint32(c.N), c.SwitchAt: uint32(c.SwitchTo)}
+		}
 	}
 }
 
@@ -243,6 +270,14 @@ func (a chainAdapter) AddItem(b *block.Block) (err error) {
 	e := blockEvent{Node: a.n.idx, Height: b.Index, Hash: b.Hash().StringLE(), hash: b.Hash(), ChainHeight: h}
 	if err != nil {
 		e.Err = err.Error()
+	} else if vals, verr := a.n.bc.GetNextBlockValidators(); verr == nil {
+		// only this goroutine (the queue's) adds blocks to this ledger, so the
+		// ledger still stands at b
+		if script, serr := smartcontract.CreateDefaultMultiSigRedeemScript(vals); serr == nil {
+			e.NextVals = len(vals)
+			e.LedgerNextNC = hash.Hash160(script).StringLE()
+			e.BlockNextNC = b.NextConsensus.StringLE()
+		}
 	}
 	a.n.cl.rec.addEvent(e)
 	return err
